@@ -120,6 +120,10 @@ def handle (args : List Sexp) : String :=
     match parseShapes ps, ax.asInt? with
     | some ps, some ax => showOptShape (npCatShape ps ax)
     | _, _ => "err bad-args"
+  | [.atom "np", .atom "index", .list (.atom "idx" :: parts), sh] =>
+    match parts.mapM parsePart, sh.asNats? with
+    | some idx, some sh => showOptShape (npIndexShape idx sh)
+    | _, _ => "err bad-args"
   | [.atom "np", .atom "slicelen", a, b, c, n] =>
     match parseOptInt a, parseOptInt b, parseOptInt c, n.asNat? with
     | some a, some b, some c, some n =>
